@@ -1,6 +1,7 @@
 package main
 
 import (
+	"sync"
 	"crypto/sha256"
 	"fmt"
 	"go/token"
@@ -72,8 +73,12 @@ func (e *Engine) Func(pkgPath, name string) *ssa.Function {
 }
 
 // LookupType finds a (possibly unexported) named type in a loaded package.
+var typeMu sync.Mutex
+
 func (e *Engine) LookupType(pkgPath, name string) types.Type {
 	key := pkgPath + "." + name
+	typeMu.Lock()
+	defer typeMu.Unlock()
 	if t, ok := e.typeByName[key]; ok {
 		return t
 	}
